@@ -3,7 +3,7 @@
    note / instrument / volume renumbering of plain cells.  Instrument and sample headers of XM / S3M / IT: by the differential only. *)
 From Coq Require Import ZArith List Lia Bool.
 Import ListNotations.
-From LX Require Import Base.ListAux Generated.Consts Model.ModCodec Proofs.ModCodecProofs Model.PatCodecs Proofs.PatXMProofs Proofs.PatS3MProofs Proofs.PatITProofs.
+From LX Require Import Base.ListAux Generated.Consts Model.ModCodec Proofs.ModCodecProofs Model.PatCodecs Proofs.PatXMProofs Proofs.PatS3MProofs Proofs.PatITProofs Model.ItSex Proofs.ItSexProofs.
 Local Open Scope Z_scope.
 
 (* Every abstract song the format can express - any title and names, any 31 instrument headers, any order list, any
@@ -135,3 +135,27 @@ Example c19_s3m_it_nonvacuous :
     [ {| e_note := 61; e_ins := 1; e_vol := 65; e_fxt := 14; e_fxp := 225; e_f2t := 0; e_f2p := 0 |};
       {| e_note := 0; e_ins := 0; e_vol := 0; e_fxt := 14; e_fxp := 225; e_f2t := 0; e_f2p := 0 |} ].
 Proof. vm_compute. repeat split; repeat constructor. Qed.
+
+(* ---------------------------------------------------------------- IT compressed samples ------------------------------- *)
+
+(* any 8- or 16-bit sample, IT 2.14 (delta) or IT 2.15 (double delta), of any length - several blocks of 0x8000 / 0x4000 samples,
+   each with its own byte count, bit reader and integrators - written by the model's writer and followed by any bytes: the
+   transcribed itsex_decompress8 / 16 unpacks exactly the samples, reports success and leaves the stream at what follows *)
+Theorem it_sample_roundtrip : forall wide it215 l tail, smp_okb wide l = true ->
+  ItSex.decompress (S (length l)) wide it215 (length l) (ItSex.compress (S (length l)) wide it215 l ++ tail) = (l, true, tail).
+Proof. exact decompress_compress. Qed.
+Print Assumptions it_sample_roundtrip.
+
+(* ... and what the writer produces is a byte stream (each block's byte count fits its 16-bit field) *)
+Theorem it_sample_writer_emits_bytes : forall wide it215 l, smp_okb wide l = true ->
+  Forall (fun b => 0 <= b < 256) (ItSex.compress (S (length l)) wide it215 l).
+Proof. exact compress_bytes. Qed.
+Print Assumptions it_sample_writer_emits_bytes.
+
+Example c19_itsex_nonvacuous :
+  let l := [0; 255; 3; 128; 129; 7] in
+  smp_okb false l = true /\ ItSex.compress 7 false true l = [7; 0; 0; 254; 21; 200; 67; 168; 16] /\
+  ItSex.decompress 7 false true 6 (ItSex.compress 7 false true l ++ [42]) = (l, true, [42]) /\
+  ItSex.decompress 7 false true 6 [7; 0; 0; 254; 21; 200] = ([0; 0; 0; 0; 0; 0], false, []) /\
+  ItSex.decompress 7 true false 2 (ItSex.compress 3 true false [65535; 1]) = ([65535; 1], true, []).
+Proof. vm_compute. repeat split; reflexivity. Qed.
